@@ -82,10 +82,11 @@ def classify_load(kind, text, res, case, fault_kinds):
     from architecture_simulator.isa.parser_exceptions import ParserException, MemorySizeException
     from architecture_simulator.uarch.memory.memory import MemoryAddressError
 
-    if kind == "toy":
+    if kind.startswith("toy"):
         from architecture_simulator.simulation.toy_simulation import ToySimulation
 
-        sim = ToySimulation()
+        # ("toy:64" = a machine built with another memory size, a public constructor argument)
+        sim = ToySimulation(int(kind[4:])) if ":" in kind else ToySimulation()
     else:
         sim = make_riscv("single")
     nlines = len(text.splitlines())
@@ -280,6 +281,10 @@ def directed_texts():
     D.append(("rv", "\n".join(["li x1, 100000"] * 2048), ["must-load"]))
     D.append(("toy", "\n".join(["NOP"] * 4096), ["must-load"]))
     D.append(("toy", ".data\nv: .word " + ", ".join(["1"] * 4000) + "\n.text\n" + "\n".join(["INC"] * 96), ["must-load"]))
+    for n_, ni_, nd_ in ((64, 40, 24), (16, 9, 7), (7, 5, 2), (5000, 4600, 400), (256, 256, 0)):
+        # TOY machines of other sizes, filled to the last word: the program fits the configured memory
+        D.append(("toy:%d" % n_, (".data\nv: .word " + ", ".join(["3"] * nd_) + "\n.text\n" if nd_ else "") + "\n".join(["INC"] * ni_), ["must-load"]))
+        D.append(("toy:%d" % n_, "\n".join(["INC"] * (n_ + 1)), ["too-long"]))
     # programs that do not fit
     D.append(("rv", "\n".join(["nop"] * 4097), ["too-long"]))
     D.append(("rv", "\n".join(["li x1, 100000"] * 2049), ["too-long"]))
